@@ -149,7 +149,7 @@ LITERAL = {
  'C06': "Literal specification (Props/C06b): the same injectivity / disjointness facts read on the formatted messages exactly as Spec.sign / verify / hashSign / hashVerify (Algorithms 2-5 as written) build them, for contexts of at most 255 bytes; the three OIDs of Spec.oidAndDigest are pairwise different and of equal length.",
  'C18': "Literal specification (Props/C18c): the standard's own transforms multiply in Z_q[X]/(X^256+1): Spec.invNtt(Spec.ntt a ∘ Spec.ntt b) is the canonical representative of the schoolbook product reduced by X^256 = -1, for all a, b.",
  'C09': "Literal specification (Props/C09d): on Spec/* alone, pkEncode(pkDecode(pk)) = pk for every byte string of public-key length (so Algorithm 23 is injective) and skEncode(skDecode(sk)) = sk for every private-key string whose s1, s2 sections decode into [-eta, eta].",
- 'C05': "Literal specification (Props/C05c): the same two collision theorems stated on Spec.verify / Spec.hashVerify (Algorithms 3 / 5 as written), with no reference to the crate: two accepted interpretations of one signature, or one tuple accepted under two public-key byte strings, exhibit a pre-hash or SHAKE256 collision.",
+ 'C05': "Literal specification (Props/C05c): the same two collision theorems stated on Spec.verify / Spec.hashVerify (Algorithms 3 / 5 as written), with no reference to the crate: two accepted interpretations of one signature, one tuple accepted under two public-key byte strings, or two accepted signature strings that differ only in the hint section (on Spec.verifyInternal) exhibit a pre-hash or SHAKE256 collision.",
  'C11': "Literal specification (Props/C11c): derived_public_key_bytes_are_the_standards - whenever Spec.keyGenInternal(xi) = (pk, sk), deserialising sk succeeds, private_to_public_key succeeds and the derived key serialises to exactly pk.",
  'C07': "Literal specification (Props/C02d, C03e): the four entry points equal Spec.verify / hashVerify / sign / hashSign (Algorithms 2-5 as written) for every context length; these are executed on every run at the lengths around the limit against the crate.",
  'C01': "Literal specification (Props/C01d): fips_204_signatures_verify_as_written - carried through the crate by the three whole-function theorems, the round trip holds of the transcription of the standard itself: "
